@@ -602,7 +602,7 @@ impl Exec {
         // the marking call itself is an ordinary collection call
         let api = if forced { Api::FinishMarking } else { Api::MarkDebt };
         let (some, panicked) = self.collect_call(ai, api, "finalize:");
-        if !some || panicked {
+        if !some || panicked || !self.violations.is_empty() {
             return;
         }
         let Some(mut arena) = self.arenas[ai].take() else { return };
@@ -649,6 +649,9 @@ impl Exec {
             self.callback_post(ai, &arena, pre, &what, panicked, false, true);
         }
         self.arenas[ai] = Some(arena);
+        if !self.violations.is_empty() {
+            return;
+        }
         if then == Then::StartSweeping {
             // re-mark whatever finalize revived, then start the sweep
             let (some, panicked) = self.collect_call(ai, Api::FinishMarking, "before start_sweeping:");
@@ -732,7 +735,7 @@ impl Exec {
             self.bk[ai].c09.sleep = None;
             self.cov.work_units += 1;
             let (_, panicked) = self.collect_call(ai, api, "work:");
-            if panicked {
+            if panicked || !self.violations.is_empty() {
                 return;
             }
         }
@@ -1120,8 +1123,11 @@ impl Exec {
             nontrivial = true;
         }
         let (_, p1) = self.collect_call(ai, Api::FinishCycle, "settle 1:");
+        if p1 || !self.violations.is_empty() {
+            return;
+        }
         let (_, p2) = self.collect_call(ai, Api::FinishCycle, "settle 2:");
-        if p1 || p2 {
+        if p2 || !self.violations.is_empty() {
             return;
         }
         self.cov.settles += 1;
@@ -1308,6 +1314,17 @@ impl Exec {
         }
         self.step_ix = case.steps.len() + 1;
         obs::arm_trace_fuse(0);
+        if !self.violations.is_empty() || !self.internal_errors.is_empty() {
+            // The heap under test may be corrupt: do not touch it again. Leak the arenas and
+            // handles of this case (the quarantined Gc blocks are released by end_case).
+            for a in self.arenas.drain(..) {
+                std::mem::forget(a);
+            }
+            for h in self.handles.drain(..) {
+                std::mem::forget(h);
+            }
+            return;
+        }
         // teardown: arenas first, then the handles that outlived them
         for ai in 0..self.arenas.len() {
             if self.arenas[ai].is_some() {
